@@ -1366,6 +1366,7 @@ func compileTableExpr(context *funcContext, reg int, ex *ast.TableExpr, ec *expc
 	regbase := reg
 
 	arraycount := 0
+	pending := 0 // positional values compiled but not yet stored by a SETLIST
 	lastvararg := false
 	for i, field := range ex.Fields {
 		islast := i == len(ex.Fields)-1
@@ -1376,6 +1377,7 @@ func compileTableExpr(context *funcContext, reg int, ex *ast.TableExpr, ec *expc
 			} else {
 				reg += compileExpr(context, reg, field.Value, ecnone(0))
 				arraycount += 1
+				pending += 1
 			}
 		} else {
 			regorg := reg
@@ -1390,28 +1392,27 @@ func compileTableExpr(context *funcContext, reg int, ex *ast.TableExpr, ec *expc
 			code.AddABC(opcode, tablereg, b, c, sline(ex))
 			reg = regorg
 		}
-		flush := arraycount % FieldsPerFlush
-		if (arraycount != 0 && (flush == 0 || islast)) || lastvararg {
+		if pending == FieldsPerFlush || (islast && pending > 0) || lastvararg {
 			reg = regbase
-			num := flush
-			if num == 0 {
-				num = FieldsPerFlush
-			}
-			c := (arraycount-1)/FieldsPerFlush + 1
-			b := num
-			if islast && isVarArgReturnExpr(field.Value) {
+			// the pending values (and an open multi-value tail) go into the block of the first pending element;
+			// arraycount-pending values have been stored already, a multiple of FieldsPerFlush
+			blockno := (arraycount-pending)/FieldsPerFlush + 1
+			b := pending
+			if lastvararg {
 				b = 0
 			}
+			pending = 0
 			line := field.Value
 			if field.Key != nil {
 				line = field.Key
 			}
+			c := blockno
 			if c > 511 {
 				c = 0
 			}
 			code.AddABC(OP_SETLIST, tablereg, b, c, sline(line))
 			if c == 0 {
-				code.Add(uint32(c), sline(line))
+				code.Add(uint32(blockno), sline(line))
 			}
 		}
 	}
